@@ -37,8 +37,10 @@ fn usk_case(kind: UKind, m: usize, seed: u64) -> Out {
     for round in 0..rng.random_range(1..4) {
         let nhist = rng.random_range(0..5);
         let mut streamed = false;
+        let mut last_item: Option<u64> = None;
         for _ in 0..nhist {
             let xs = rand_stream(&mut rng, &pool, 20 * m.min(100) + 5);
+            last_item = if rng.random_range(0..3) == 0 { xs.get(2.min(xs.len() - 1)).cloned() } else { xs.last().cloned() };
             match rng.random_range(0..3) {
                 0 => {
                     used.sketch_slice(&xs);
@@ -54,6 +56,7 @@ fn usk_case(kind: UKind, m: usize, seed: u64) -> Out {
                     for x in xs.iter().take(3) {
                         used.sketch(*x);
                     }
+                    last_item = xs.get(2.min(xs.len() - 1)).cloned();
                     ops.push(json!(["sketch_items", xs.len().min(3)]));
                 }
             }
@@ -68,7 +71,13 @@ fn usk_case(kind: UKind, m: usize, seed: u64) -> Out {
         let _ = streamed;
         used.reinit();
         ops.push(json!(["reinit"]));
-        let x = rand_stream(&mut rng, &pool, 20 * m.min(100) + 5);
+        let mut x = rand_stream(&mut rng, &pool, 20 * m.min(100) + 5);
+        // the new input often starts with the last item seen before the reinit (overlapping windows)
+        if let Some(last) = last_item {
+            if rng.random_range(0..2) == 0 {
+                x.insert(0, last);
+            }
+        }
         let mut fresh = make_usk(kind, m);
         if rng.random_range(0..2) == 0 {
             used.sketch_slice(&x);
@@ -210,19 +219,27 @@ fn pmh2_case(seed: u64) -> Out {
         let n = rng.random_range(1..80);
         fresh_ids(rng, n, 0).into_iter().map(|d| (d, 10f64.powf(rng.random_range(-3.0..3.0)))).collect()
     };
+    let mut last_pair: Option<(u64, f64)> = None;
     for round in 0..3 {
         for _ in 0..rng.random_range(0..3) {
             for (d, w) in gen_w(&mut rng) {
                 used.hash_item(d, w);
+                last_pair = Some((d, w));
             }
             nops += 1;
         }
         used.reset();
-        let x = gen_w(&mut rng);
+        let mut x = gen_w(&mut rng);
+        if let Some(l) = last_pair {
+            if rng.random_range(0..2) == 0 {
+                x.insert(0, l);
+            }
+        }
         let mut fresh = ProbMinHash2::<u64, FnvHasher>::new(m, 0);
         for (d, w) in &x {
             used.hash_item(*d, *w);
             fresh.hash_item(*d, *w);
+            last_pair = Some((*d, *w));
         }
         nops += 1;
         if used.get_signature() != fresh.get_signature() || used.verif_registers().iter().map(|v| v.to_bits()).ne(fresh.verif_registers().iter().map(|v| v.to_bits())) {
